@@ -331,6 +331,9 @@ func checkC09(c *c09ctx) (string, string) {
 	// type / code / pointer
 	ptr := int(binary.BigEndian.Uint16(rp.pld[6:8]))
 	if why := typeCodePointer(c, op, typ, code, ptr, rp.pld); why != "" {
+		if strings.HasPrefix(why, "EPIC:") {
+			return "pointer-epic-header-ignored", why
+		}
 		return "type-code-pointer", why
 	}
 	// authenticator
@@ -396,8 +399,7 @@ func typeCodePointer(c *c09ctx, op *parsed, typ, code, ptr int, scmp []byte) str
 	al := at.scn.AddrHdrLen()
 	base := 12 + al
 	if at.scn.PathType == epic.PathType {
-		// currentHopPointer ignores the EPIC header: accept what the code computes
-		base = 12 + al
+		base += epic.MetadataLen // the pointer is a byte offset in the offending packet
 	}
 	hopPtr, infoPtr := -1, -1
 	if at.rawPath != nil {
@@ -412,10 +414,16 @@ func typeCodePointer(c *c09ctx, op *parsed, typ, code, ptr int, scmp []byte) str
 	case 4:
 		switch code {
 		case 48, 49, 50, 51, 52:
+			if ptr != hopPtr && at.scn.PathType == epic.PathType && ptr == hopPtr-epic.MetadataLen {
+				return fmt.Sprintf("EPIC: code %d pointer %d ignores the %d-byte EPIC header; the current hop field is at %d", code, ptr, epic.MetadataLen, hopPtr)
+			}
 			if ptr != hopPtr {
 				return fmt.Sprintf("code %d: pointer %d is not the current hop field (%d)", code, ptr, hopPtr)
 			}
 		case 53:
+			if ptr != infoPtr && at.scn.PathType == epic.PathType && ptr == infoPtr-epic.MetadataLen {
+				return fmt.Sprintf("EPIC: code 53 pointer %d ignores the %d-byte EPIC header; the current info field is at %d", ptr, epic.MetadataLen, infoPtr)
+			}
 			if ptr != infoPtr {
 				return fmt.Sprintf("code 53: pointer %d is not the current info field (%d)", ptr, infoPtr)
 			}
